@@ -2,6 +2,7 @@ package main
 
 import (
 	"fmt"
+	"github.com/lugu/qiloop/type/object"
 	"math/rand"
 	"strings"
 	"sync"
@@ -66,10 +67,14 @@ type host struct {
 	sess  bus.Session
 	names []string
 	impls map[string]*svc.Impl
+	// refs holds ONE object reference per service, shared by every goroutine that asks for the object
+	// (a reference received once and handed to the workers)
+	refs map[string]object.ObjectReference
+	boot bus.Session
 }
 
 func newHost(w *world, idx int, prog *int64) (*host, error) {
-	h := &host{addr: newAddr("unix"), impls: map[string]*svc.Impl{}}
+	h := &host{addr: newAddr("unix"), impls: map[string]*svc.Impl{}, refs: map[string]object.ObjectReference{}}
 	inner, err := qnet.Listen(h.addr)
 	if err != nil {
 		return nil, err
@@ -96,10 +101,27 @@ func newHost(w *world, idx int, prog *int64) (*host, error) {
 		h.names = append(h.names, name)
 		h.impls[name] = im
 	}
+	// a session created now knows the services registered above (the host's own session learns about
+	// them through the serviceAdded signal, later)
+	boot, err := w.session()
+	if err != nil {
+		return nil, err
+	}
+	h.boot = boot // kept until the host goes away: its connection must not close in the middle of a round
+	for _, name := range h.names {
+		p, err := boot.Proxy(name, 1)
+		if err != nil {
+			return nil, fmt.Errorf("reference to %s: %v", name, err)
+		}
+		h.refs[name] = bus.ObjectReference(p)
+	}
 	return h, nil
 }
 
 func (h *host) close() {
+	if h.boot != nil {
+		h.boot.Terminate()
+	}
 	h.srv.Terminate()
 	h.sess.Terminate()
 }
@@ -158,7 +180,7 @@ func c19(c *wk.Ctx) {
 		var mu sync.Mutex
 		var viols [][2]string
 		used := make([]int32, len(hosts))
-		var overload int64
+		var overload, sharedRefs int64
 		for g := 0; g < G; g++ {
 			wg.Add(1)
 			r := rand.New(rand.NewSource(rng.Int63()))
@@ -172,7 +194,17 @@ func c19(c *wk.Ctx) {
 				name := h.names[r.Intn(len(h.names))]
 				<-start
 				atomic.StoreInt32(&used[hi], 1)
-				p, err := sess.Proxy(name, 1)
+				var p bus.Proxy
+				var err error
+				viaSharedRef := r.Intn(4) == 0
+				if viaSharedRef {
+					// the first request of this goroutine is for the object behind a reference which
+					// other goroutines are using at the same moment
+					p, err = sess.Object(h.refs[name])
+					atomic.AddInt64(&sharedRefs, 1)
+				} else {
+					p, err = sess.Proxy(name, 1)
+				}
 				if err != nil && strings.Contains(err.Error(), "consumer blocked") {
 					// load shedding by the hosting server (its 10-slot queue is full): an overload
 					// refusal, not a failure of the session; counted, not judged
@@ -185,7 +217,7 @@ func c19(c *wk.Ctx) {
 					mu.Unlock()
 					return
 				}
-				if r.Intn(3) == 0 {
+				if !viaSharedRef && r.Intn(3) == 0 {
 					// also through an object reference
 					ref := bus.ObjectReference(p)
 					p2, err := sess.Object(ref)
@@ -206,6 +238,11 @@ func c19(c *wk.Ctx) {
 				if err != nil || res != svc.F(token, name) {
 					mu.Lock()
 					viols = append(viols, [2]string{"proxy=not-working", fmt.Sprintf("the proxy for %s does not work: %q %v", name, res, err)})
+					mu.Unlock()
+				} else if n := h.impls[name].ExecCount(token); n != 1 {
+					// a working proxy for the service is connected to THAT service's object
+					mu.Lock()
+					viols = append(viols, [2]string{"proxy=wrong-target", fmt.Sprintf("a call through the proxy obtained for %s returned, but the object of %s executed it %d times: the proxy is connected to another object", name, name, n)})
 					mu.Unlock()
 				}
 				atomic.AddInt64(&progress, 1)
@@ -328,6 +365,7 @@ func c19(c *wk.Ctx) {
 		c.Count("requests", int64(G))
 		c.Count("requests_in_later_waves_on_the_established_session", atomic.LoadInt64(&steady))
 		c.Count("requests_refused_by_server_load_shedding", atomic.LoadInt64(&overload))
+		c.Count("requests_through_a_shared_object_reference", atomic.LoadInt64(&sharedRefs))
 		c.Max("max_connections_accepted_by_one_host_in_a_round", maxAccepted)
 		if maxAccepted >= 2 {
 			c.Nontrivial(wk.Hash64("C19", i))
